@@ -35,6 +35,14 @@ pub fn run(ctx: &mut Ctx) {
         vec![TOp::DeliverReq(Delivery::CraftedWrongCounter(0)), TOp::DeliverReq(Delivery::CraftedWrongCounter(1)), TOp::DeliverReq(Delivery::CraftedWrongRole), TOp::DeliverResp(Delivery::CraftedWrongCounter(0)), TOp::DeliverResp(Delivery::CraftedWrongRole), TOp::Ready],
         // response replay
         vec![TOp::Prepare(vec![], false), TOp::Retrieve, TOp::DeliverResp(Delivery::Latest), TOp::DeliverResp(Delivery::Latest), TOp::DeliverResp(Delivery::Replay(0))],
+        // a genuine message that also carries a status member (session termination, the error statuses), then a message
+        // under the all-zero key, a replay, and the next genuine message — in both directions
+        vec![TOp::NewRequest(1), TOp::DeliverReq(Delivery::LatestWithStatus(2)), TOp::DeliverReq(Delivery::CraftedZeroKey), TOp::DeliverReq(Delivery::Replay(1)), TOp::NewRequest(2), TOp::DeliverReq(Delivery::Latest),
+             TOp::Prepare(vec![0], false), TOp::NextPayload, TOp::Submit(true), TOp::Retrieve, TOp::DeliverResp(Delivery::LatestWithStatus(2)), TOp::DeliverResp(Delivery::CraftedZeroKey), TOp::DeliverResp(Delivery::Replay(0))],
+        vec![TOp::NewRequest(1), TOp::DeliverReq(Delivery::LatestWithStatus(0)), TOp::DeliverReq(Delivery::CraftedZeroKey), TOp::NewRequest(2), TOp::DeliverReq(Delivery::LatestWithStatus(1)), TOp::DeliverReq(Delivery::CraftedZeroKey),
+             TOp::Prepare(vec![0], false), TOp::NextPayload, TOp::Submit(true), TOp::Retrieve, TOp::DeliverResp(Delivery::LatestWithStatus(0)), TOp::DeliverResp(Delivery::CraftedZeroKey)],
+        // an undecodable but authentic request (answered with an error response), its replay, then a genuine round
+        vec![TOp::DeliverReq(Delivery::CraftedNotCbor), TOp::Retrieve, TOp::DeliverReq(Delivery::CraftedNotStruct), TOp::Retrieve, TOp::NewRequest(0), TOp::DeliverReq(Delivery::Latest), TOp::Prepare(vec![0], false), TOp::NextPayload, TOp::Submit(true), TOp::Retrieve, TOp::DeliverResp(Delivery::Latest)],
     ];
     for (i, ops) in directed.into_iter().enumerate() {
         for ndocs in 1..=2 {
